@@ -42,8 +42,10 @@ func corrC04(r *Run) {
 		"followed by arbitrary body octets; every kind of command_length lie (0..15, 16, exact, short, long, 65536, 65537, 2^31, 2^32-1); mutated and truncated valid frames; " +
 		"non-trivial = distinct input with at least a complete 16-octet header"
 	ts := pduTypes()
-	n := r.N(2500, 60000)
+	n := r.N(10000, 200000)
 	caseBudget := r.N(500, 8000)
+	vol := &pduVolume{}
+	defer vol.diff(r)
 	single := func(data []byte, sched []int, bucket string) {
 		c := &chunkReader{data: data, sched: sched}
 		r.SetReplay(replayStream(data, sched))
@@ -57,6 +59,9 @@ func corrC04(r *Run) {
 			o = readOnce(c)
 		}
 		r.Count(fmt.Sprintf("%x|%v", data, sched), len(data) >= 16, bucket+"/"+o.Kind)
+		if !hung && o.Kind != "neither" {
+			vol.readone(data, sched, o)
+		}
 		in := fmt.Sprintf("readpdu %x sched=%s", data, schedString(sched))
 		if len(in) > 3000 {
 			in = fmt.Sprintf("readpdu %s sched=%s", shortHex(data), schedString(sched))
